@@ -28,7 +28,7 @@ def _run(prop, tier, replay, text):
                                     invariants=INVS, constraints=['Emit']),
                      list(range(16)), 'loadcheck.LoadJudge', {'prop': prop}, tlc_kwargs={'timeout': 6000})
     agg = merge(res)
-    rep.add_tlc('StoneLoadMC', agg, {'models': 127})
+    rep.add_tlc('StoneLoadMC', agg, {'models': 129})
     rep.add_judged(agg)
     rep.exhaustive = True
     rep.coverage_extra['rule'] = text
@@ -39,7 +39,7 @@ def _run(prop, tier, replay, text):
 
 def check_c09(tier, replay=None):
     return _run('C09', tier, replay,
-                '127 API models (inheritance of 2 levels or with a field-less marker struct in the middle; ancestors in the same or an '
+                '129 API models (inheritance of 2 levels or with a field-less marker struct in the middle; ancestors in the same or an '
                 'imported namespace; struct/union/Void route arguments; deprecation none/plain/by; rpc/upload/download; a 3-namespace '
                 'import ring) x every namespace imported first in a fresh interpreter; per model the imported modules are compared with '
                 'StoneLoadMC!PySurface: classes and bases, constructor parameters in order, every field read/write/delete, union helpers '
@@ -48,7 +48,7 @@ def check_c09(tier, replay=None):
 
 def check_c14(tier, replay=None):
     return _run('C14', tier, replay,
-                'for every route of the 127 models every call shape (k leading positionals for every k; remaining required parameters '
+                'for every route of the 129 models every call shape (k leading positionals for every k; remaining required parameters '
                 'by keyword; optional ones none / each singly / all) is issued on a subclass of the generated client whose request() '
                 'records its arguments: method name, signature and defaults, exactly one request, route object identity, namespace, '
                 'argument == struct built from the parameters (distinct value per field), upload body, DeprecationWarning, return value')
@@ -56,7 +56,7 @@ def check_c14(tier, replay=None):
 
 def check_c15(tier, replay=None):
     return _run('C15', tier, replay,
-                'for each of the 127 models the .pyi of every namespace is parsed with ast and compared with StoneLoadMC!PySurface and '
+                'for each of the 129 models the .pyi of every namespace is parsed with ast and compared with StoneLoadMC!PySurface and '
                 'with the imported runtime module: classes, bases, constructor parameter names, field attributes, is_/get_/constructor '
                 'helpers, void-tag attributes, validators, alias bindings, route objects; every annotation compared with the Pep484 '
                 'mapping computed by the specification; every name used in an annotation must be bound in the stub')
@@ -69,10 +69,10 @@ def check_c16(tier, replay=None):
                                     invariants=INVS, constraints=['Emit']),
                      list(range(16)), 'jscheck.JsJudge', {}, tlc_kwargs={'timeout': 6000})
     agg = merge(res)
-    rep.add_tlc('StoneLoadMC', agg, {'models': 127})
+    rep.add_tlc('StoneLoadMC', agg, {'models': 129})
     rep.add_judged(agg)
     rep.exhaustive = True
-    rep.coverage_extra['rule'] = ('for each of 126 API models (no import ring): js_client with 2 option sets parsed by node --check and evaluated '
+    rep.coverage_extra['rule'] = ('for each of 128 API models (no import ring): js_client with 2 option sets parsed by node --check and evaluated '
                                   'under node with a recording request(): one function per route version, URL, argument or null, attribute '
                                   'values; js_types JSDoc typedefs and tsd_types declarations (single file, file per namespace, '
                                   '--export-namespaces) scanned: every struct, union (and alias for tsd) exactly once, every field and tag at '
@@ -89,10 +89,10 @@ def check_c17(tier, replay=None):
                                     invariants=INVS, constraints=['Emit']),
                      list(range(16)), 'swiftcheck.SwiftJudge', {}, tlc_kwargs={'timeout': 6000})
     agg = merge(res)
-    rep.add_tlc('StoneLoadMC', agg, {'models': 127})
+    rep.add_tlc('StoneLoadMC', agg, {'models': 129})
     rep.add_judged(agg)
     rep.exhaustive = True
-    rep.coverage_extra['rule'] = ('for each of 126 API models the six rows swift_types, swift_types --objc, swift_client, swift_client --objc, '
+    rep.coverage_extra['rule'] = ('for each of 128 API models the six rows swift_types, swift_types --objc, swift_client, swift_client --objc, '
                                   'obj_c_types, obj_c_client (with the route-style and client-argument options they require) must complete; every '
                                   '.swift/.h/.m file is scanned by a small lexer (balanced brackets outside strings and comments, terminated '
                                   'strings and comments); declarations of namespaces, structs, unions, fields, tags, serializers and route '
